@@ -68,7 +68,7 @@ def run(chk: Check, tier: str):
         # calls whose target address is symbolic: one frame per account the address may alias
         prog, inputs = progs_alias.fam_alias(rnd)
         items.append(Item(prog, inputs))
-    items += [it for it in probes.c01_probes() if it.key in ("probe:static-call-with-value",)]
+    items += [it for it in probes.c01_probes() if it.key in ("probe:static-call-with-value", "probe:static-tstore")]
     kinds = {}
     for i in range(0, len(items), 100):
         outs = run_items(items[i : i + 100], chk)
